@@ -6,6 +6,7 @@ pub mod panics;
 pub mod props;
 pub mod refmodel;
 pub mod simnet;
+pub mod srcdict;
 
 /// serde helper: Vec<u8> as a hex string (replay files stay readable and small).
 pub mod hexbytes {
